@@ -8,8 +8,9 @@ from props import _condorcet_common as CC
 ID = 'C05'
 NAMESPACE = 'VL.C05'
 LEAN_MODULES = ['VotelibProofs.Props.C05']
-GEN_MODULES = []
-REQUIRED = ['cw_copeland', 'cw_minimax_wv', 'cw_minimax_margins', 'cw_schulze', 'cw_benham', 'cw_tideman',
+GEN_MODULES = ['PairwinScorer']
+REQUIRED = ['winning_votes_is_textbook', 'margins_is_textbook', 'pairwise_opposition_is_textbook', 'scorePairs_is_textbook',
+            'cw_copeland', 'cw_minimax_wv', 'cw_minimax_margins', 'cw_schulze', 'cw_benham', 'cw_tideman',
             'cw_rankedpairs_partial', 'cw_kemeny_partial', 'kemeny_is_argmax', 'kemeny_refusal',
             'copeland_in_smith', 'schulze_in_smith', 'kemeny_in_smith', 'rankedpairs_in_smith', 'tideman_in_smith',
             'lockPairs_acyclic', 'isPath_iff', 'benham_in_smith_witness', 'copeland_defining', 'minimax_defining', 'worstDefeat_is_max', 'widestPaths_correct', 'winWeight_is_win_count',
